@@ -148,6 +148,17 @@ class HLightSub(HLight):
     __slots__ = ("weight",)
 
 
+class HLightT(Hooks, LightNodeMixin):
+    """A __slots__ class (no instance __dict__) used as the *target* of link nodes."""
+
+    __slots__ = ("foo", "_bar", "name")
+
+    def __init__(self, name=None):
+        super().__init__()
+        if name is not None:
+            self.name = name
+
+
 class HNode(Hooks, Node):
     pass
 
